@@ -814,6 +814,7 @@ def evOps (s : Sys F) : Ev → Nat → Op → Prop
   | .setCfg _, _, _ => False
   | .crit _, _, _ => False
   | .failNext _, _, _ => False
+  | .failAfter _ _, _, _ => False
   | .failBind _, _, _ => False
   | .stamp idx _ _ _ _, j, op => op = .stamp ∧ j = idx
   | .syncTimeout, _, op => op = .syncTimeout
